@@ -206,6 +206,11 @@ def is_simple(p):
     return not intervals(p)
 
 
+def simples(n):
+    """All simple permutations of length n (brute force over S_n)."""
+    return [p for p in itertools.permutations(range(n)) if is_simple(p)]
+
+
 def children(p):
     return {remove_at(p, i) for i in range(len(p))}
 
